@@ -574,11 +574,11 @@ def build_node(node, ctx, htf, plug_map=None):
   raise ValueError(t)
 
 
-def build_test(prog, ctx, htf, plug_map=None):
+def build_test(prog, ctx, htf, plug_map=None, prebuilt_nodes=None):
   """Returns (test, test_start_arg)."""
   if plug_map is None and prog.get('plugs'):
     plug_map = make_plug_classes(prog['plugs'], ctx, htf)
-  nodes = [build_node(n, ctx, htf, plug_map) for n in prog['nodes']]
+  nodes = prebuilt_nodes if prebuilt_nodes is not None else [build_node(n, ctx, htf, plug_map) for n in prog['nodes']]
   test = htf.Test(*nodes)
   o = prog['opts']
   kw = {}
